@@ -2,7 +2,7 @@
 import ast
 from ..engine.model import AnalysisError, dotted
 from ..engine.context import unparse, enclosing_stmt, stores_in, names_in
-from ..engine.cfg import walk_no_nested, calls_in, facts_of
+from ..engine.cfg import stmt_exprs, walk_no_nested, calls_in, facts_of
 from .c03 import edge_has_fact
 
 EXPLANATION = (
@@ -343,6 +343,25 @@ def run(ctx, R, tier):
     R.check(not writers, "C04-R5", "all_exceptions|no-runtime-writer", "no function writes the exception whitelist", ser.relpath,
             "%s modifies the whitelist at run time (`%s`): a tag refused once is accepted the next time" % (
                 writers[0][0].qualname if writers else "", unparse(writers[0][1], 70) if writers else ""))
+
+    # a dict is class-tagged when it HAS the tag key, whatever the tag's value: recreate_classes must dispatch on key membership (a falsy tag is still a tag, and must be rejected)
+    rcf = ctx.fn("Pyro5.serializers.SerializerBase.recreate_classes")
+    rcfg_ = ctx.cfg(rcf)
+    lit_ = rcf.params[1]
+    d2c_calls = [n for c, _ in ctx.cg.calls_of(rcf) if isinstance(c.func, ast.Attribute) and c.func.attr == "dict_to_class" for n in ctx.node_of(rcf, c)]
+
+    def has_tag(want):
+        def pred(atom, pol):
+            if isinstance(atom, ast.Compare) and len(atom.ops) == 1 and isinstance(atom.left, ast.Constant) and atom.left.value == "__class__" and unparse(atom.comparators[0]) == lit_:
+                return (isinstance(atom.ops[0], ast.In) and pol is want) or (isinstance(atom.ops[0], ast.NotIn) and pol is (not want))
+            return False
+        return pred
+    plain = [n for n in rcfg_.nodes if n.kind in ("stmt", "for") and any(isinstance(c, ast.Call) and isinstance(c.func, ast.Attribute) and c.func.attr == "items" and unparse(c.func.value) == lit_
+                                                                          for e_ in stmt_exprs(n) for c in ast.walk(e_))]
+    ok = bool(d2c_calls) and all(rcfg_.guarded(n, lambda e: edge_has_fact(e, has_tag(True))) for n in d2c_calls) and \
+        bool(plain) and all(rcfg_.guarded(n, lambda e: edge_has_fact(e, has_tag(False))) for n in plain)
+    R.check(ok, "C04-R1", "recreate_classes|dispatch-on-key-membership", "a dict goes to dict_to_class exactly when it contains the key '__class__'; only dicts without it are passed on as data",
+            rcf.loc(), "the class-tag test in recreate_classes is not a membership test of the key: a dict whose tag is falsy ('', None, 0, ...) is returned as ordinary data instead of being rejected")
 
 
 def _inside(node, container):
